@@ -53,8 +53,8 @@ Proof.
       rewrite Z.mod_mod by (pose proof W_pos; lia).
       rewrite Zplus_mod_idemp_r. rewrite E. apply Z.mod_small. exact Hc. }
   destruct (om_get (hash_values R) c) as [[en d]|] eqn:E1.
-  - inversion Hl; subst. eapply G; eauto.
-  - destruct (om_get pre c) as [[en d]|] eqn:E2; [|discriminate]. inversion Hl; subst. eapply G; eauto.
+  - inversion Hl; subst. exact (G (hash_values R) en d Wr Sr E1).
+  - destruct (om_get pre c) as [[en d]|] eqn:E2; [|discriminate]. inversion Hl; subst. exact (G pre en d Wp Sp E2).
 Qed.
 
 (* ---- the hypothesis holds for the code's precomputed registry *)
@@ -111,9 +111,6 @@ Proof. intros pre R e f c t Hl. cbn [decode_gen]. unfold g_lookup. rewrite Hl. r
 (* the two layouts' decoders at a given recursion budget *)
 Definition sol_dec (pre : omap) (R : registry) (f : nat) (l : loc) : res (chunkid * list kt) :=
   bind (key_structure pre R f l) (fun r => match r with (slot, keys, n, sz) => Ok ((slot, n, sz), keys) end).
-
-Lemma sol_dec_FUEL : forall R l, sol_dec precomputed R FUEL l = sol_decode R l.
-Proof. reflexivity. Qed.
 
 Lemma sol_dec_const : forall pre R f c t, reverse_lookup_in pre R c = Some t ->
   sol_dec pre R (S f) (K c) = sol_dec pre R f t.
